@@ -50,7 +50,7 @@ def check_merge(rep, prog):
     fn = u.funcs['upipe_ts_psim_input']
     rep.rule('R-merge', 'upipe_ts_psim_input on every (synchronised or not) x (0..n octets of a section already assembled, the cut at every position including '
              'inside the 3-octet header) x (payload with or without unit start and pointer field) x (rest of the section, then none / one / two further '
-             'complete sections, then nothing / stuffing / the first 1..5 octets of another section) x (discontinuity flag) x (illegal length): the sections '
+             'complete sections, then nothing / stuffing / the first 1..5 octets of another section) x (discontinuity flag) x (illegal length), and sections of the maximal legal size (section_length 4093, 4091, 4090) cut at several places: the sections '
              'output are exactly those a reference reassembly completes, each once, whole, in order and unmodified; what is kept pending is exactly the '
              'incomplete tail; corrupt or unsynchronised data is dropped and synchronisation waits for the next unit start; every buffer is freed, output '
              'or kept - no leak, no double free, no read outside the data')
@@ -87,6 +87,24 @@ def check_merge(rep, prog):
                         else:
                             payload = body
                         one_merge(R, prog, u, fn, s1name, a, mid, tname, acquired, start, disc, pending, payload, S1, secs, tail)
+    # sections at the legal maximum (section_length 4093, 4096 octets in all) and just below: the limits of the header check
+    for ln in (4093, 4091, 4090):
+        nm = 'M%d' % ln
+        secs[nm] = tsref.psi_section(0x44, ln, 'm', syntax=0)
+        S1 = secs[nm]
+        for a in (0, 1, 2, 3, 200, len(S1) - 1):
+            for mid in ((), ('B0',)):
+                for tname in ('none', 'c2'):
+                    tail = tails[tname]
+                    body = S1[a:] + sum((secs[x] for x in mid), []) + tail
+                    for acquired, start, disc in ((1, 0, 0), (1, 1, 0)):
+                        if a == 0 and not start:
+                            continue
+                        pending = S1[:a] if a > 0 else None
+                        payload = ([len(S1[a:]) if a > 0 else 0] + body) if start else body
+                        if start and a > 0 and len(S1[a:]) > 255:
+                            continue          # a pointer_field is one octet
+                        one_merge(R, prog, u, fn, nm, a, mid, tname, acquired, start, disc, pending, payload, S1, secs, tail)
     rep.tables['R-merge'] = {'abstract_inputs': R.runs, 'paths': R.paths, 'octet_accesses_checked': R.derefs}
     if R.runs < 1500:
         raise facts.AnalysisBroken('R-merge domain shrank to %d inputs' % R.runs)
